@@ -9,10 +9,11 @@ Theorem C17_args : forall junk start cnt rest, wf_junk junk ->
   = PReq (RReadCD start cnt) rest.
 Proof. intros junk start cnt rest Hj Hs Hc. exact (parse_wire junk Hj (RReadCD start cnt) rest (conj Hs Hc)). Qed.
 
-(* for every raw sector size S in force, every image and every (start, count) in range, the answer is
+(* for every raw sector size S in force, every image (of a size the filesystem can hold: fs_max_offset is the largest
+   offset lseek accepts there, regenerated with the other constants) and every (start, count) in range, the answer is
    exactly the 2048 user bytes [24 + (start+j)*S, +2048) of each sector j, in order, and nothing else *)
 Theorem C17_read : forall c w k X start cnt,
-  ro_is_file w k X -> 0 < cdsec k -> 0 <= start -> 0 <= cnt ->
+  ro_is_file w k X -> 0 < cdsec k -> 0 <= start -> 0 <= cnt -> zlen X <= fs_max_offset ->
   psx_prefix + (start + cnt - 1) * cdsec k + cd_read_size <= zlen X \/ cnt = 0 ->
   step c w k (RReadCD start cnt) =
   done w k (cd_sectors X (cdsec k) (psx_prefix + start * cdsec k) (Z.to_nat cnt)).
